@@ -40,6 +40,14 @@ def gen(tier, rng):
                     calls = [[n // 2, ao, 1 + (k + ao) % 2, 0]] * 1
                     add(api="deflate", inp=inp, level=level, wrap=wrap, lbuf=3, calls=calls + [[0, ao, 1 + (k + ao) % 2, 0]] * (4 * n + 80) + [[n, 1 << 16, 2, 0]],
                         meta={"family": "split-marker", "cls": cls})
+    # (f) FULL_FLUSH left pending by a call whose output filled up (every output size), then a call that supplies a COPY of the data before the
+    #     flush point: independence (D7) requires that nothing after the marker refers back across it
+    for n in ([300] if tier == "quick" else [300, 1000, 5000]):
+        seg = [rng.choice(b"abcdefgh") for _ in range(n)]
+        for ao in range(1, n + 60, 1 if n <= 300 else 3):
+            for level in (range(4) if tier == "thorough" else [ao % 4]):
+                add(api="deflate", inp=seg + seg, level=level, wrap=[0, 1, 3][ao % 3], lbuf=[3, 0][ao % 2], mem=ao % 3, calls=[[n, ao, 2, 0], [n, 1 << 16, [2, 0, 1][ao % 3], 0], [0, 1 << 16, 0, 1]],
+                    meta={"family": "full-flush-pending-then-copy", "cls": "copy"})
     # (e) one-shot raw FULL_FLUSH followed by a terminating call: outputs appended
     for cls, n in [("text", 500), ("random", 300), ("empty", 0), ("runs", 2000), ("zeros", 8), ("zeros", 300), ("ff", 1001), ("zeros", 4096), ("ff", 70000)]:
         a, b = igz.corpus(rng, cls, n), igz.corpus(rng, "text", 200)
